@@ -214,9 +214,22 @@ Example C16_get_trailing_separator_poisons :
   fst (get KData ex_disk kB [(kB, NotLoaded)]) = Some (GOk [3]).
 Proof. vm_compute. repeat split. Qed.
 
-(** [glyph::Image::new] (the file name a glyph refers to, not a store key) still accepts ".."
-    and "." *)
+(** [glyph::Image::new] (the file name a glyph refers to, not a store key): accepted exactly when
+    non-empty, relative, at most one component and — since 2bd9911 — well-formed UTF-8 *)
+Theorem C16_glyph_image_new_accepts : forall raw,
+  glyph_image_new raw = None <->
+  raw <> [] /\ is_absolute raw = false /\ (length (components raw) <= 1)%nat /\ utf8_valid raw = true.
+Proof. exact glyph_image_new_accepts. Qed.
+
+(** it still accepts ".." and "."; a name that is not Unicode is refused after the other checks *)
 Example C16_glyph_image_name_dotdot :
   glyph_image_new [46; 46] = None /\ glyph_image_new [46] = None /\
   glyph_image_new kAB = Some Subdir /\ glyph_image_new [47; 97] = Some PathIsAbsolute.
+Proof. vm_compute. repeat split. Qed.
+
+Example C16_glyph_image_name_not_unicode :
+  glyph_image_new [97; 255] = Some PathNotUnicode /\ glyph_image_new [237; 160; 128] = Some PathNotUnicode /\
+  glyph_image_new [224; 128; 128] = Some PathNotUnicode /\ glyph_image_new [244; 144; 128; 128] = Some PathNotUnicode /\
+  glyph_image_new [195; 169] = None /\ glyph_image_new [240; 159; 152; 128] = None /\
+  glyph_image_new [97; 47; 255] = Some Subdir /\ glyph_image_new [47; 255] = Some PathIsAbsolute.
 Proof. vm_compute. repeat split. Qed.
